@@ -32,19 +32,23 @@ def norm(x):
 
 
 def _quant_real(v, kmax, tol):
-    """find (a, b, k) with |(a + b s)/2^k - v| <= tol, smallest k then smallest |b|; None if not found"""
+    """find (a, b, k), k minimal, with |(a + b s)/2^k - v| <= tol; None if there is none (vectorised search over b)"""
+    import numpy as np
     for k in range(0, kmax + 1):
         f = 2.0 ** k
         t = v * f
-        bmax = int(abs(t) / S2) + 2 ** (k // 2 + 1) + 2
-        for bb in sorted(range(-bmax, bmax + 1), key=abs):
-            a = round(t - bb * S2)
-            if abs((a + bb * S2) - t) <= tol * f:
-                return a, bb, k
+        B = int(1.5 * f * max(1.0, abs(v))) + 2
+        bb = np.arange(-B, B + 1)
+        a = np.rint(t - bb * S2)
+        err = np.abs(a + bb * S2 - t)
+        ok = np.nonzero(err <= tol * f)[0]
+        if len(ok):
+            i = ok[np.argmin(np.abs(bb[ok]))]
+            return int(a[i]), int(bb[i]), k
     return None
 
 
-def quantise(z, kmax=8, tol=1e-9):
+def quantise(z, kmax=10, tol=1e-11):
     """nearest ring element with bounded denominator, or None (OFFRING)"""
     z = complex(z)
     r = _quant_real(z.real, kmax, tol)
@@ -59,7 +63,7 @@ def quantise(z, kmax=8, tol=1e-9):
     return x
 
 
-def quantise_matrix(A, kmax=8, tol=1e-9):
+def quantise_matrix(A, kmax=10, tol=1e-11):
     out = []
     for row in A:
         r = []
